@@ -41,8 +41,12 @@ mod protocol;
 mod python;
 mod stack;
 mod state;
+#[cfg(feature = "verif-hooks")]
+pub mod verif;
 
 pub use cli::Cli;
 pub use generator::Generator;
+#[cfg(feature = "verif-hooks")]
+pub use generator::{EntropySource, GenerationSource};
 pub use mutators::{EmissionSnapshot, Mutator, MutatorKind};
 pub use protocol::Version;
